@@ -51,7 +51,7 @@ SETTINGS = {'disk_min_file_size': 8}
 BIG = 'BIG-' + 'x' * 12 + '\n' + 'y' * 10            # file-backed, written in two chunks
 BIG2 = 'BIG2' + 'z' * 12 + '\n' + 'w' * 10
 SMALL = 'sm'
-EXPECTED_SIGS = ('block_crash_lost_file',)
+EXPECTED_SIGS = ()
 KILL_RECORDS = []       # one per kill point: see run_workload
 STRICT_REPAIR = True    # after check(fix=True) a second check() must report NOTHING (empty parent directories are pruned since the C17 fix)
 SETUP_NOW = 900.0
@@ -315,42 +315,8 @@ def inspect(directory, kind, wl, k, clock):
 
 
 def classify(viol, wl, k):
-    """A kill inside an open transact block after an inner call already removed a value file: the crash variant of
-    finding D8 (the row is still committed, its file is gone)."""
-    if not viol:
-        return viol
-    sigs = set(s for s, _ in viol)
-    if not sigs <= {'present_key_unreadable', 'check_reports:file_not_found', 'contents_not_atomic', 'repair_incomplete'}:
-        return viol
-    if 'present_key_unreadable' not in sigs and 'check_reports:file_not_found' not in sigs:
-        return viol
-    e0 = k.get('started_e0')
-    if e0 is None or k['started'] is None:
-        return viol
-    # only a kill inside a BLOCK qualifies: a user block of the workload, or a method that is a block itself
-    unit = [u for u in units_of_program(wl['program']) if u[0] <= k['started'] <= u[1]]
-    is_block = bool(unit) and unit[0][0] != unit[0][1]
-    # (Index.popitem, and Deque.append/appendleft/extend on a bounded deque, are transact blocks inside the library)
-    lib_block = (wl['kind'], wl['program'][k['started']]['op']) in (('index', 'popitem'), ('deque', 'append'), ('deque', 'appendleft'), ('deque', 'extend'))
-    if not (is_block or lib_block):
-        return viol
-    ev = k['events'][e0:] if k.get('started_depth', 0) == 0 else None
-    # events of the interrupted unit: from the outermost BEGIN on
-    evs = k['events']
-    last_begin = max([i for i, e in enumerate(evs) if e == 'sql:BEGIN'] + [-1])
-    # find the BEGIN that opened the transaction still open at the kill: the last BEGIN not followed by COMMIT/ROLLBACK
-    open_from = None
-    for i, e in enumerate(evs):
-        if e == 'sql:BEGIN' and open_from is None:
-            open_from = i
-        elif e in ('sql:COMMIT', 'sql:ROLLBACK'):
-            open_from = None
-    if open_from is None:
-        return viol
-    inside = evs[open_from:]
-    if 'file:remove' in inside:
-        return [('block_crash_lost_file', 'killed inside an open transaction block after an inner call had already removed a value file '
-                 '(events since BEGIN: %s): the committed row survives, its file is gone; %s' % (' '.join(inside), viol[0][1]))]
+    """(Until the repair recorded under C06-F1 / C07-F1 this attributed a committed row without its file, after a kill inside an
+    open block that had already removed the file, to that defect.  Nothing is re-attributed any more.)"""
     return viol
 
 
